@@ -1395,6 +1395,17 @@ func (a *Agent) addRelayCandidates(ctx context.Context, ep relayEndpoint) {
 
 	addresses, ok := a.resolveRelayAddresses(ep)
 	if !ok {
+		// No candidate will own the allocation: release it together with the
+		// TURN client and local socket instead of leaking them.
+		if ep.closeConn != nil {
+			ep.closeConn()
+		}
+		if ep.onClose != nil {
+			if err := ep.onClose(); err != nil {
+				a.log.Warnf("Failed to release relay resources: %v", err)
+			}
+		}
+
 		return
 	}
 
